@@ -154,6 +154,14 @@ func cmdCheck(repo, verif string, args []string) int {
 	// lemma proofs
 	cr.lemmaObs = lemmaObligations(p, verif)
 	outDir := filepath.Join(verif, "out", prop)
+	if os.Getenv("GOVC_REPO") != "" {
+		// a run on a scratch copy (seeded changes, self-test) must not share SMT files with a run of the same
+		// property on /repo or on another copy: two such runs deleted and overwrote each other's queries
+		outDir = filepath.Join(verif, "out", "scratch", fmt.Sprintf("%s-%d", prop, os.Getpid()))
+		if os.Getenv("GOVC_KEEP") == "" {
+			defer os.RemoveAll(outDir)
+		}
+	}
 	os.RemoveAll(outDir)
 	tmo := 10
 	if tier == "thorough" {
@@ -468,14 +476,14 @@ var notCovered = map[string][]string{
 	},
 	"C17": {
 		"that the reference transducer of tools/enum_rows.py is the documented enum-rule grammar: by inspection, not machine-checked; composition of rows over a whole text",
-		"the value-ending composite of stateEndValue / state0 / state1 / stateDot0 (its parts are specified: stateAfterArrayItem, stateEndTop, stateFoundArrayEnd); validateValue's duplicate detection; the length-computing mode",
+		"the value-ending composite of stateEndValue / state0 / state1 / stateDot0 (its parts are specified: stateAfterArrayItem, stateEndTop, stateFoundArrayEnd); validateValue's duplicate detection; the events of the length-computing mode (Length() is proved in range and blank-trimmed, not to be the end of the list)",
 		"Values() order and the AST of the rule; `enum: @name` vs the inline list through the loader",
 	},
 	"C02": {
 		"loader, compiler, checker and OpenAPI conversion are not under contract: their panics are not excluded",
 		"schema scanner: run-time panics are excluded in every state function, the two closures, Next (first call at or before the end of the text; later calls are not covered), the queue and stack operations and New; Length() is NOT covered (its bound needs the push-down discipline of the event stack, which the thin invariant does not carry); explicit error-valued panics are allowed exits",
 		"enum rule scanner: run-time panics are excluded in every state method, Next and the queue/stack operations; explicit error-valued panics (empty-stack Pop, json.Guess on an unclassifiable literal inside validateValue) and enum.Enum's own methods (compile, Values, Len) are not",
-		"stack depth and memory exhaustion (the model has unbounded memory and recursion depth)",
+		"recursion: termination is proved for checker.resolveRootType (key-shortcut type resolution) and for appendTypeValidators/buildList (checker list construction, guard addedTypeNames); the guards of collectAllowedJsonTypes (foundTypeNames), the loader (processingTypes) and the example builder are not under a termination contract; stack depth as such and memory exhaustion are not modelled",
 		"known finding: Number scanner exponent magnitude above 2^40 (make with a huge length)",
 	},
 	"C04": {"only the integer parsers and the constraint constructors that use them; float parsing (strconv) is external"},
@@ -510,8 +518,9 @@ var notCovered = map[string][]string{
 	"C12": {
 		"that the reference transducer of tools/jsondoc_rows.py (whose rows every state function is proved to implement) is the RFC 8259 grammar: by inspection, not machine-checked",
 		"composition of the rows over a whole text (language equality as a theorem about Check()); Next is specified by invariants, not by the iterated transducer",
-		"tree equality with an independent decoder; of Len() only the bound Len(S) <= len(S), 'does not end in a blank' and the absence of out-of-range reads are proved",
+		"tree equality with an independent decoder; of Len(): the bound Len(S) <= len(S), 'does not end in a blank', no out-of-range read, and with trailing text 'only blanks between the result and the first trailing character' are proved - not that the result is the end of the value when there is no trailing text",
 	},
+
 	"C13": {"Number.String(); known findings: 0eN rejected, exponents above 2^40"},
 	"C16": {
 		"schema scanner: every panic it raises is proved to be an error value, and a positioned one points inside the text; WHICH byte it points at is not specified",
